@@ -252,10 +252,11 @@ theorem good_fields {c : Cfg} (h : good c = true) :
     c.selfGuard = true ∧ c.refuseRecvRedel = true ∧ c.sharesCmp = "LT" ∧ c.withdrawFrom = true ∧
     c.toLookupBeforeFromWrite = true ∧ c.withdrawTo = true ∧ c.incPeriodForNewTo = true ∧ c.decRefOnRemoval = true ∧
     c.delInfoOnRemoval = true ∧ c.incRefForNewTo = true ∧ c.newToPeriodOffset = 1 ∧ c.allowanceCheck = true ∧
-    c.allowanceSubDecrease = true ∧ c.transferFromArgs = true ∧ c.sharesPositive = true ∧ c.prog = refProg := by
+    c.allowanceSubDecrease = true ∧ c.transferFromArgs = true ∧ c.sharesPositive = true ∧ c.prog = refProg ∧
+    c.wrappers = wrappersRef := by
   simp only [good, Bool.and_eq_true, beq_iff_eq] at h
-  obtain ⟨⟨⟨⟨⟨⟨⟨⟨⟨⟨⟨⟨⟨⟨⟨a1, a2⟩, a3⟩, a4⟩, a5⟩, a6⟩, a7⟩, a8⟩, a9⟩, a10⟩, a11⟩, a12⟩, a13⟩, a14⟩, a15⟩, a16⟩ := h
-  exact ⟨a1, a2, a3, a4, a5, a6, a7, a8, a9, a10, a11, a12, a13, a14, a15, a16⟩
+  obtain ⟨⟨⟨⟨⟨⟨⟨⟨⟨⟨⟨⟨⟨⟨⟨⟨a1, a2⟩, a3⟩, a4⟩, a5⟩, a6⟩, a7⟩, a8⟩, a9⟩, a10⟩, a11⟩, a12⟩, a13⟩, a14⟩, a15⟩, a16⟩, a17⟩ := h
+  exact ⟨a1, a2, a3, a4, a5, a6, a7, a8, a9, a10, a11, a12, a13, a14, a15, a16, a17⟩
 
 theorem cmpShares_LT (a b : Nat) : cmpShares "LT" a b = decide (a < b) := by
   simp [cmpShares]
@@ -285,7 +286,7 @@ set_option linter.unusedSimpArgs false in
 /-- the interpreter run on the reference program computes the composition of the four hand-read phases -/
 theorem xferCore_eq_spec {c : Cfg} (hg : good c = true) (v : VS) (h f t fsh X : Nat) :
     VS.xferCore c v h f t fsh X = VS.specCore c v h f t fsh X := by
-  obtain ⟨-, -, -, g4, g5, g6, g7, g8, g9, g10, g11, -, -, -, -, gp⟩ := good_fields hg
+  obtain ⟨-, -, -, g4, g5, g6, g7, g8, g9, g10, g11, -, -, -, -, gp, -⟩ := good_fields hg
   unfold VS.xferCore VS.specCore
   rw [gp]
   simp only [g4, if_true]
